@@ -923,3 +923,101 @@ func runAsyncJoin(c *core.Ctx) {
 		}
 	}
 }
+
+// ------------------------------------------------------------------ RES-FIELDOWNER
+
+func init() {
+	register(&core.Rule{ID: "RES-FIELDOWNER", Props: []string{"C01", "C04"}, Floor: 20,
+		Doc: "the fields of a resource implementation are written only by that type's own methods (or its constructor / option functions): state changed behind the resource's back is invisible to dirty tracking, snapshots, tracing and rollback",
+		Run: runResFieldOwner})
+}
+
+// fieldOwnerExceptions: writer function prefix -> owner type -> reason
+var fieldOwnerExceptions = map[string]map[string]string{
+	"distsys.localArchetypeSubResource.": {"distsys.LocalArchetypeResource": "the sub-resource is a view onto its parent cell and performs the parent's reads/writes"},
+}
+
+func runResFieldOwner(c *core.Ctx) {
+	e := EnvOf(c.Prog)
+	iface := resourceIface(c, e)
+	if iface == nil {
+		return
+	}
+	implSet := map[*types.TypeName]*types.Named{}
+	for _, ri := range resourceImpls(e, iface) {
+		implSet[ri.named.Obj()] = ri.named
+	}
+	// manager types whose state is part of a resource
+	for _, extra := range []string{"LocalSharedManager"} {
+		if t := e.Ix.LookupType(an.PkgResources, extra); t != nil {
+			implSet[t.Obj()] = t
+		}
+	}
+	perType := map[string]int{}
+	bad := map[string]bool{}
+	for _, fn := range e.Ix.Funcs() {
+		info := fn.Pkg.Info
+		writer := fn.Name()
+		recvT := an.RecvNamed(fn.Obj)
+		check := func(lhs ast.Expr) {
+			fs := an.FieldsInLvalue(info, lhs)
+			if len(fs) == 0 {
+				return
+			}
+			owner := e.Ix.FieldOwner(fs[0])
+			if owner == nil || implSet[owner.Obj()] == nil {
+				return
+			}
+			ok := an.TypeKey(owner)
+			perType[ok]++
+			switch {
+			case recvT != nil && recvT.Obj() == owner.Obj():
+				return
+			case fn.Obj != nil && recvT == nil && fn.Obj.Pkg() == owner.Obj().Pkg() &&
+				(strings.HasPrefix(fn.Obj.Name(), "New") || strings.HasPrefix(fn.Obj.Name(), "new") || strings.HasPrefix(fn.Obj.Name(), "With") || strings.HasPrefix(fn.Obj.Name(), "Make") || strings.HasPrefix(fn.Obj.Name(), "make")):
+				return // constructor / option: runs before the resource is bound to a context
+			}
+			for pre, owners := range fieldOwnerExceptions {
+				if strings.HasPrefix(writer, pre) && owners[ok] != "" {
+					return
+				}
+			}
+			// the 2PC receiver is the RPC face of its resource
+			if recvT != nil && recvT.Obj().Name() == "TwoPCReceiver" && ok == "resources.TwoPCArchetypeResource" {
+				return
+			}
+			key := fmt.Sprintf("%s:writes(%s.%s)", writer, ok, fs[0].Name())
+			if !bad[key] {
+				bad[key] = true
+				c.Bad(key, lhs.Pos(), "%s assigns field %s of resource type %s directly, outside that type's methods: the change bypasses the resource's WriteValue (no dirty mark, no rollback snapshot, no trace record), so e.g. an abort restores a stale value", writer, fs[0].Name(), ok)
+			}
+		}
+		ast.Inspect(fn.Body(), func(n ast.Node) bool {
+			switch x := n.(type) {
+			case *ast.AssignStmt:
+				for _, l := range x.Lhs {
+					check(l)
+				}
+			case *ast.IncDecStmt:
+				check(x.X)
+			}
+			return true
+		})
+	}
+	var keys []string
+	for k := range perType {
+		keys = append(keys, k)
+	}
+	sort.Strings(keys)
+	for _, k := range keys {
+		anyBad := false
+		for b := range bad {
+			if strings.Contains(b, "writes("+k+".") {
+				anyBad = true
+			}
+		}
+		if !anyBad {
+			c.Ok(k, token.NoPos, "%d field writes, all from the type's own methods / constructors", perType[k])
+		}
+	}
+}
